@@ -171,7 +171,7 @@ def judge (line : String) : String :=
       if hasFailPre cs.ops then
         (match firstBadRestart cs.ops b0 rest 0 with
          | none => "ok"
-         | some k => s!"bad C07-F3 step {k} ({(cs.ops.map opName).getD k "?"}): a member restarted after a failed first attempt runs outside the actor tree and/or with a restart count that was not bumped")
+         | some k => s!"bad C07-F3 step {k} ({(cs.ops.map opName).getD k "?"}): a member that was restarted is not registered under its parent or its restart count was not bumped (regression of fix 07658af)")
       else
       let h0 : Hists := List.replicate cs.n []
       match firstBad .code cs.opts h0 clock0 cs.ops b0 rest 0 with
